@@ -83,6 +83,8 @@ class Model(object):
         if "sec" in n:
             return MNode(n["sec"], parent, True, n.get("mult", 1), n["sec"])
         node = MNode(n["name"], parent, False)
+        node.exists = not n.get("spawn", False)  # a sub-strategy created dynamically mid-history (parent=, setup_from_parent)
+        node.spec = n
         for c in n.get("children") or []:
             m = self._build(c, node)
             node.children[m.name] = m
@@ -269,10 +271,20 @@ class TreeRun(object):
     def subtree_prices_ok(self, mnode):
         """every security with a position (or that may receive a trade) under mnode has a usable price"""
         for s in mnode.securities():
+            if any(not getattr(a_, "exists", True) for a_ in self._ancestors(s)):
+                continue
             v = self.spec["prices"][s.ticker][self.i]
             if v is None or v <= 0:
                 return False
         return True
+
+    @staticmethod
+    def _ancestors(ms):
+        out = []
+        while ms.parent is not None:
+            ms = ms.parent
+            out.append(ms)
+        return out
 
     def bottom_ok(self, ms):
         """ms and its ancestors have a non-zero return base (a P&L on a zero base is refused by bt by design)"""
@@ -315,8 +327,23 @@ class TreeRun(object):
             root.update(self.now())
             return True
         spath = op[1]
-        s = self.node(spath)
         ms = M.by_path[spath]
+        if not getattr(ms, "exists", True) or any(not getattr(a_, "exists", True) for a_ in self._ancestors(ms)):
+            return False  # not spawned yet
+        s = self.node(spath)
+        if kind == "spawn":
+            mc = ms.children[op[2]]
+            if getattr(mc, "exists", True):
+                return False
+            bt = self.bt
+            kids = [c if isinstance(c, str) else interp.mk_node(bt, c, self.spec, {}) for c in mc.spec.get("children") or []]
+            new = bt.core.StrategyBase(mc.name, children=kids or None, parent=s)
+            new.setup_from_parent()
+            if self.fee.spec["kind"] != "none":
+                new.set_commissions(self.fee)
+            mc.exists = True
+            root.update(self.now())
+            return True
         if kind == "adjust":
             amt = op[2] * cap
             flow = bool(op[3])
@@ -341,6 +368,8 @@ class TreeRun(object):
             return True
         child = op[2]
         mc = ms.children[child]
+        if not mc.issec and not getattr(mc, "exists", True):
+            return False  # a sub-strategy that has not been spawned yet
         if mc.issec:
             if not self.price_ok(spath, child):
                 return False
@@ -625,12 +654,12 @@ def op_spec(draw, paths, has_bo):
     if k == "transact":
         px = None
         if has_bo and draw(st.integers(0, 2)) == 0:
-            px = draw(st.sampled_from([1.0, 0.99, 1.01, 1.1, 0.9]))
+            px = draw(st.sampled_from([1.0, 0.99, 1.01, 1.1, 0.9, 0.0]))  # 0.0: a transfer booked at a price of exactly zero
         return [k, path, child, draw(FRACS), px]
     if k == "transact_seq":
         x = draw(FRACS)
         seq = draw(st.sampled_from([[x, -x], [x, -x, x], [x, x, -2 * x], [x, draw(FRACS)], [x, -x, draw(FRACS), draw(FRACS)]]))
-        px = draw(st.sampled_from([None, None, 1.01, 0.98])) if has_bo else None
+        px = draw(st.sampled_from([None, None, 1.01, 0.98, 0.0])) if has_bo else None
         return [k, path, child, seq, px]
     if k == "rebalance":
         base = draw(st.sampled_from([None, None, None, 0.5, 1.0]))
@@ -662,6 +691,14 @@ def history_spec(draw, min_ops=3, max_ops=25, max_dates=8, costs=True, allow_mul
             spec["bidoffer"] = bo
     else:
         spec["fee"] = {"kind": "none"}
+    spawn = None
+    if draw(st.integers(0, 3)) == 0:
+        # a sub-strategy that does not exist at first and is created mid-history under one of the strategies
+        holders = [nd for _, nd in gen.walk_nodes(tree)]
+        par = holders[draw(st.integers(0, len(holders) - 1))]
+        kids_t = draw(st.lists(st.sampled_from(tickers), min_size=1, max_size=len(tickers), unique=True))
+        par.setdefault("children", []).append({"name": "dyn1", "kind": "StrategyBase", "children": list(kids_t), "spawn": True})
+        spawn = par
     paths = strategy_paths(tree)
     ops = []
     # usually fund every sub-strategy first (an unfunded strategy that trades has a return on a zero base, which bt refuses by design)
@@ -670,7 +707,13 @@ def history_spec(draw, min_ops=3, max_ops=25, max_dates=8, costs=True, allow_mul
             for k, isst in kids.items():
                 if isst:
                     ops.append(["alloc_child", path, k, draw(st.sampled_from([0.1, 0.2, 0.3]))])
-    spec["ops"] = ops + draw(st.lists(op_spec(paths, spec.get("bidoffer") is not None), min_size=min_ops, max_size=max_ops))
+    body = draw(st.lists(op_spec(paths, spec.get("bidoffer") is not None), min_size=min_ops, max_size=max_ops))
+    if spawn is not None:
+        ppath = [p_ for p_, kids_ in paths if "dyn1" in kids_][0]
+        k_ = draw(st.integers(0, len(body)))
+        body = body[:k_] + [["spawn", ppath, "dyn1"], ["alloc_child", ppath, "dyn1", draw(st.sampled_from([0.05, 0.1, 0.2]))]] + body[k_:]
+    # unfunded prefunding of the not-yet-existing strategy is skipped by the interpreter
+    spec["ops"] = ops + body
     return spec
 
 
